@@ -257,7 +257,24 @@ func c06Channels(c *Ctx) {
 		for _, call := range Calls(ap) {
 			cc := call.Common()
 			if cc.StaticCallee() == nil && !cc.IsInvoke() && len(cc.Args) == 1 && cc.Args[0] == ssa.Value(ap.Params[0]) {
-				if only, _ := loopOnlyConds(call); only && InLoop(call.Block()) {
+				only := true
+				for _, dc := range DomConds(call) {
+					if b, ok := dc.V.(*ssa.BinOp); ok {
+						if b.Op == token.LSS && dc.Pol && isAscendingIndex(b.X) {
+							if _, ok := isLenOf(b.Y); ok {
+								continue
+							}
+						}
+						// `if o == nil { continue }`: a nil option cannot be applied; skipping it withholds nothing
+						if (b.Op == token.NEQ && dc.Pol) || (b.Op == token.EQL && !dc.Pol) {
+							if (IsNilConst(b.Y) && b.X == cc.Value) || (IsNilConst(b.X) && b.Y == cc.Value) {
+								continue
+							}
+						}
+					}
+					only = false
+				}
+				if only && InLoop(call.Block()) {
 					okCall = true
 				}
 			}
